@@ -23,6 +23,9 @@ theorem zeroOf_eqM (t : Ty) (ht : tyOKM t = true) : zeroOf t = Spec.Protobuf.zer
   case struct fs =>
     simp only [Bool.and_eq_true] at ht
     simp only [zeroOf, Spec.Protobuf.zeroOf, zeroFields_eqM fs 1 ht.1]
+  case arr n e =>
+    have := isByte_eq e ht; subst this
+    simp only [zeroOf, Spec.Protobuf.zeroOf]
   all_goals simp only [zeroOf, Spec.Protobuf.zeroOf]
 theorem zeroFields_eqM (fs : Fields) (pos : Nat) (hf : fieldsOKM pos fs = true) :
     zeroFields fs = Spec.Protobuf.zeroFields fs := by
@@ -53,6 +56,9 @@ theorem zeroOfCodec_codecForM (t : Ty) (o : FieldOpt) (ht : tyOKM t = true) (hnm
     cases e with
     | int k => cases k <;> simp only [codecOf, zeroOfCodec, zeroOf]
     | _ => simp only [codecOf, zeroOfCodec, zeroOf]
+  case arr n e =>
+    have := isByte_eq e ht; subst this
+    simp only [codecFor, codecOf, zeroOfCodec, zeroOf]
   all_goals simp only [codecFor, codecOf, zeroOfCodec, zeroOf]
 theorem zeroCFields_fieldsOfM (fs : Fields) (pos : Nat) (hf : fieldsOKM pos fs = true) :
     zeroOfCodec.zeroCFields (fieldsOf pos fs) = zeroFields fs := by
